@@ -104,8 +104,8 @@ func (s *scanner) Length() uint {
 
 		if lex.Type() == lexeme.EndTop {
 			// Found character after the end of the schema and spaces. Ex: char
-			// "s" in "{} some text".
-			length = uint(lex.End()) - 1
+			// "s" in "{} some text". The length is where the previous lexeme
+			// ended: that character may directly follow the value ("{}x").
 			break
 		}
 		length = uint(lex.End()) + 1
